@@ -375,6 +375,16 @@ class CFG:
             if norm.entails(out, goal):
                 continue
             if _killed(goal, w):
+                # a plain copy `x = y` (both names) is the one write that can be looked through: before it, the goal with y for x must hold
+                pa = self.nodes[p].ast
+                if self.nodes[p].kind == "stmt" and isinstance(pa, ast.Assign) and len(pa.targets) == 1 and isinstance(pa.targets[0], ast.Name) and isinstance(pa.value, ast.Name) \
+                        and w == {pa.targets[0].id} and goal[0] == "cmp" and pa.value.id != pa.targets[0].id:
+                    x, y = pa.targets[0].id, pa.value.id
+                    if goal[2] == x or goal[3] == x:
+                        g2 = (goal[0], goal[1], y if goal[2] == x else goal[2], y if goal[3] == x else goal[3])
+                        if x not in _names_of_text(g2[2])[0] and x not in _names_of_text(g2[3])[0]:
+                            if self._holds(p, g2, depth - 1, seen):
+                                continue
                 return False
             if not self._holds(p, goal, depth - 1, seen):
                 return False
